@@ -98,6 +98,15 @@ theorem forwarded_only_after_own_credentials_verified_partial (cfg : Cfg) (es : 
     Sound cfg (run cfg St.init es).2 :=
   (run_invS cfg es invW_init invS_init hc).2
 
+/-- The invariant behind it (DESIGN: `ok_means_current_password_verified`), PARTIAL under the same hypothesis: after such a history
+every record in state Ok has been verified by the helper for exactly the password it stores, at the time its expiretime says. -/
+theorem ok_means_current_password_verified_partial (cfg : Cfg) (es : List Event) (hc : CalmRun cfg St.init es) (i : Nat)
+    (hi : i < (run cfg St.init es).1.nrec) (hok : ((run cfg St.init es).1.recs i).cred = .ok) :
+    Verified (run cfg St.init es).2 ((run cfg St.init es).1.recs i).user ((run cfg St.init es).1.recs i).passwd
+      ((run cfg St.init es).1.recs i).expire := by
+  have := (run_invS cfg es invW_init invS_init hc).1.ok_ver i hi hok
+  simpa using this
+
 /-- FULL STRENGTH for the repaired variant of `Auth::Basic::Config::decode` (a request whose password differs from a Pending
 cached record gets a record of its own): every history, any interleaving, any verdicts. -/
 theorem fixed_forwarded_only_after_own_credentials_verified (cfg : Cfg) (hf : cfg.fresh = true) (es : List Event) :
@@ -156,6 +165,20 @@ theorem race_counterexample : ¬ Sound legacy (run legacy St.init raceHistory).2
   subst hp
   simp only [List.nil_append, List.mem_cons, List.mem_nil_iff, or_false] at hv
   rcases hv with h | h | h | h | h | h | h
+  all_goals first
+    | exact Out.noConfusion h
+    | (injection h with _ _ h3 _ _; exact absurd h3 (by decide))
+
+/-- the invariant itself is false without the hypothesis: after the race history the record is Ok with password "bad", which
+the helper never accepted -/
+theorem ok_means_current_password_verified_counterexample :
+    ((run legacy St.init raceHistory).1.recs 0).cred = .ok ∧ ((run legacy St.init raceHistory).1.recs 0).passwd = bad ∧
+    ∀ id t, Out.verdict id uName bad true t ∉ (run legacy St.init raceHistory).2 := by
+  refine ⟨by decide, by decide, ?_⟩
+  intro id t h
+  rw [race_outputs] at h
+  simp only [List.mem_cons, List.mem_nil_iff, or_false] at h
+  rcases h with h | h | h | h | h | h | h | h
   all_goals first
     | exact Out.noConfusion h
     | (injection h with _ _ h3 _ _; exact absurd h3 (by decide))
